@@ -7,10 +7,11 @@
 //
 // Case string (also the --replay argument):
 //   T:<parent of G1>.<..>  P:<group of W1>.<W2>.<W3>  WE:i.i.i  GE:i.. K:k.k.k
-//   U:u D:d S:s.s.s I:i Q:<len><a|s>...
+//   U:u D:d X:x S:s.s.s I:i Q:<len><a|s>...
 //   parent -1 = FIELD; WE/GE index into the per-entity efficiency alphabets;
 //   K 0 producer (WCONHIST) 1 water injector 2 gas injector (WCONINJH);
-//   U 0 METRIC 1 FIELD 2 LAB 3 PVT-M; D start date index; S 0 open 1 shut 2 stop;
+//   U 0 METRIC 1 FIELD 2 LAB 3 PVT-M; D start date index; X 1 = every efficiency factor moves to the next value of its
+//   alphabet at the second report step; S 0 open 1 shut 2 stop;
 //   I 1 = evaluate report step 0 at t=0 first; Q evaluation sequence, element
 //   = length index (0: 1 d, 1: 10 d, 2: 0.5 d) + 'a' (closes its report step)
 //   or 's' (ministep, the report step continues with the next element).
@@ -60,9 +61,9 @@ struct Case {
     int we[3] = {0, 0, 0};
     int ge[4] = {0, 0, 0, 0};
     int kind[3] = {0, 0, 0};
-    int us = 0, start = 0;
+    int us = 0, start = 0, xe = 0;
     int status[3] = {0, 0, 0};
-    int init = 1;
+    int init = 0;
     std::vector<std::pair<int, int>> seq = {{0, 0}};     // (length index, ministep flag)
 
     std::string str() const {
@@ -72,7 +73,7 @@ struct Case {
         s += " WE:"; for (int i = 0; i < 3; ++i) s += (i ? "." : "") + std::to_string(we[i]);
         s += " GE:"; for (int i = 0; i < ng; ++i) s += (i ? "." : "") + std::to_string(ge[i]);
         s += " K:"; for (int i = 0; i < 3; ++i) s += (i ? "." : "") + std::to_string(kind[i]);
-        s += " U:" + std::to_string(us) + " D:" + std::to_string(start);
+        s += " U:" + std::to_string(us) + " D:" + std::to_string(start) + " X:" + std::to_string(xe);
         s += " S:"; for (int i = 0; i < 3; ++i) s += (i ? "." : "") + std::to_string(status[i]);
         s += " I:" + std::to_string(init) + " Q:";
         for (auto& e : seq) { s += std::to_string(e.first); s += e.second ? 's' : 'a'; }
@@ -103,6 +104,7 @@ struct Case {
             else if (k == "K") for (int i = 0; i < 3; ++i) c.kind[i] = iv.at(i);
             else if (k == "U") c.us = iv.at(0);
             else if (k == "D") c.start = iv.at(0);
+            else if (k == "X") c.xe = iv.at(0);
             else if (k == "S") for (int i = 0; i < 3; ++i) c.status[i] = iv.at(i);
             else if (k == "I") c.init = iv.at(0);
             else if (k == "Q") { c.seq.clear(); for (size_t i = 0; i + 1 < v.size(); i += 2) c.seq.push_back({v[i] - '0', v[i + 1] == 's'}); }
@@ -111,6 +113,8 @@ struct Case {
         if (c.seq.empty()) throw std::runtime_error("empty sequence");
         return c;
     }
+    int wei(int w, int r) const { return (xe && r >= 1) ? (we[w] + 1) % 3 : we[w]; }     // efficiency index of well w in schedule step r
+    int gei(int g, int r) const { return (xe && r >= 1) ? (ge[g] + 1) % 3 : ge[g]; }
     bool leaf(int g) const { for (int i = 0; i < ng; ++i) if (par[i] == g) return false; return true; }
     bool valid() const {                       // acyclic tree, wells only in leaf groups (the library rejects mixed children)
         for (int i = 0; i < ng; ++i) { int g = i, n = 0; while (g >= 0) { g = par[g]; if (++n > ng) return false; } }
@@ -165,6 +169,11 @@ static std::string render_schedule(const Case& c) {
             if (!we.empty()) s += "WEFAC\n" + we + "/\n";
             if (!ge.empty()) s += "GEFAC\n" + ge + "/\n";
         }
+        if (r == 1 && c.xe) {
+            s += "WEFAC\n"; for (int w = 0; w < 3; ++w) s += std::string(" '") + WN[w] + "' " + num(WEF[w][c.wei(w, 1)]) + " /\n";
+            s += "/\nGEFAC\n"; for (int g = 0; g < c.ng; ++g) s += std::string(" '") + GN[g] + "' " + num(GEF[g][c.gei(g, 1)]) + " /\n";
+            s += "/\n";
+        }
         // LAB decks give time in hours
         s += "TSTEP\n " + num(c.us == 2 ? lens[r] * 24.0 : lens[r]) + " /\n";
     }
@@ -194,16 +203,32 @@ static const EclipseState& es_for(int us, int start) {
 }
 static std::unique_ptr<Built> g_built;
 static uint64_t g_builds = 0;
+// The enumeration parses the SCHEDULE part per model and the (constant) SUMMARY
+// part once per unit system/start date/group count; replays and diagnosis runs
+// use one complete deck (g_full_deck), and a mismatch found with the split
+// input must reproduce with the complete deck before it is reported.
+static bool g_full_deck = false;
+static std::map<std::string, std::unique_ptr<Deck>> g_sumdeck;
 static Built& build(const Case& c) {
-    std::string key = c.static_key();
+    std::string key = c.static_key() + (g_full_deck ? " full" : "");
     if (g_built && g_built->key == key) return *g_built;
     g_built.reset();                         // Summary refers to Schedule/Config: destroy as a unit
     auto b = std::make_unique<Built>(); b->key = key;
     try {
-        auto deck = g_parser->parseString(render(c, g_summary_section));
         b->es = &es_for(c.us, c.start);
-        b->sched = std::make_unique<Schedule>(deck, *b->es, g_python);
-        b->cfg = std::make_unique<SummaryConfig>(deck, *b->sched, b->es->fieldProps(), b->es->aquifer());
+        if (g_full_deck) {
+            auto deck = g_parser->parseString(render(c, g_summary_section));
+            b->sched = std::make_unique<Schedule>(deck, *b->es, g_python);
+            b->cfg = std::make_unique<SummaryConfig>(deck, *b->sched, b->es->fieldProps(), b->es->aquifer());
+        } else {
+            const StartDate& sd = STARTS[c.start];
+            auto sdeck = g_parser->parseString(std::string("RUNSPEC\nDIMENS\n 3 3 3 /\nOIL\nWATER\nGAS\n") + USYS[c.us] + "\nWELLDIMS\n 4 5 6 4 /\nSTART\n " + std::to_string(sd.d) + " " + sd.mon + " " + std::to_string(sd.y) + " /\n" + render_schedule(c));
+            b->sched = std::make_unique<Schedule>(sdeck, *b->es, g_python);
+            std::string sk = std::to_string(c.us) + "/" + std::to_string(c.start) + "/" + std::to_string(c.ng);
+            auto& sd2 = g_sumdeck[sk];
+            if (!sd2) sd2 = std::make_unique<Deck>(g_parser->parseString(render_head(c.us, c.start) + "SUMMARY\n" + g_summary_section + "SCHEDULE\nEND\n"));
+            b->cfg = std::make_unique<SummaryConfig>(*sd2, *b->sched, b->es->fieldProps(), b->es->aquifer());
+        }
         b->sum = std::make_unique<out::Summary>(*b->cfg, *b->es, b->es->getInputGrid(), *b->sched, "C09");
     } catch (const std::exception& e) { b->error = e.what(); b->sum.reset(); }
     ++g_builds;
@@ -277,20 +302,20 @@ struct Ref {
         return false;
     }
     // efficiency weight of well w in node's RATE: factors of the well and of the groups strictly below node
-    double w_rate(int w, int node) const {
+    double w_rate(int w, int node, int r) const {
         if (node < 3) return 1.0;
-        double f = WEF[w][c.we[w]];
-        for (int g = c.wg[w]; g >= 0; g = c.par[g]) { if (node != 3 + c.ng && g == node - 3) break; f *= GEF[g][c.ge[g]]; }
+        double f = WEF[w][c.wei(w, r)];
+        for (int g = c.wg[w]; g >= 0; g = c.par[g]) { if (node != 3 + c.ng && g == node - 3) break; f *= GEF[g][c.gei(g, r)]; }
         return f;
     }
     // weight in any cumulative TOTAL: the well's factor and every group factor up to FIELD (downtime of an ancestor stops the flow)
-    double w_total(int w) const { double f = WEF[w][c.we[w]]; for (int g = c.wg[w]; g >= 0; g = c.par[g]) f *= GEF[g][c.ge[g]]; return f; }
+    double w_total(int w, int r) const { double f = WEF[w][c.wei(w, r)]; for (int g = c.wg[w]; g >= 0; g = c.par[g]) f *= GEF[g][c.gei(g, r)]; return f; }
 
     Flow flow(int node, bool total_mode, int k, int hist_step) const {
         Flow f;
         for (int w = 0; w < 3; ++w) {
             if (!under(w, node) || c.status[w] == 1) continue;           // shut wells contribute nothing
-            double wt = total_mode ? w_total(w) : w_rate(w, node);
+            double wt = total_mode ? w_total(w, hist_step) : w_rate(w, node, hist_step);
             for (int q = 0; q < 6; ++q) {
                 double v = fp_rate(w, q, k, c.kind[w], c.status[w]) * wt;             // SI, m3/s
                 double dv = v / ((q < 3 ? (q == 2 ? u.gas : u.liq) : u.resv) / u.time);   // deck rate unit
@@ -411,29 +436,42 @@ static bool fails(const Case& c, int kw) { Outcome o = run_case(c); if (!o.error
 static std::string diagnose(Case& c, int kw, const Mismatch& first) {
     const Kw& k = g_kws[kw];
     if (first.missing) return "missing";
+    // order matters only for the label; every reset that keeps the failure is kept, so the reported case is small
     bool need_units = false, need_efac = false, need_status = false, need_kind = false, need_seq = false;
     { Case d = c; d.us = 0; if (c.us != 0) { if (fails(d, kw)) c = d; else need_units = true; } }
-    { Case d = c; bool any = false; for (int i = 0; i < 3; ++i) { any |= d.we[i] != 0; d.we[i] = 0; } for (int i = 0; i < 4; ++i) { any |= d.ge[i] != 0; d.ge[i] = 0; } if (any) { if (fails(d, kw)) c = d; else need_efac = true; } }
+    { Case d = c; bool any = false; for (int i = 0; i < 3; ++i) { any |= d.we[i] != 0; d.we[i] = 0; } for (int i = 0; i < 4; ++i) { any |= d.ge[i] != 0; d.ge[i] = 0; } any |= d.xe != 0; d.xe = 0; if (any) { if (fails(d, kw)) c = d; else need_efac = true; } }
     { Case d = c; bool any = false; for (int i = 0; i < 3; ++i) { any |= d.status[i] != 0; d.status[i] = 0; } if (any) { if (fails(d, kw)) c = d; else need_status = true; } }
     { Case d = c; bool any = false; for (int i = 0; i < 3; ++i) { any |= d.kind[i] != 0; d.kind[i] = 0; } if (any) { if (fails(d, kw)) c = d; else need_kind = true; } }
     { Case d = c; d.seq = {{0, 0}}; d.init = 0; if (c.seq.size() > 1 || c.init || c.seq[0].first != 0) { if (fails(d, kw)) c = d; else need_seq = true; } }
     { Case d = c; d.start = 0; if (c.start != 0 && fails(d, kw)) c = d; }
-    { Case d = c; for (int i = 0; i < d.ng; ++i) d.par[i] = -1; if (d.valid() && fails(d, kw)) c = d; }
+    bool need_tree = false;
+    { Case d = c; bool any = false; for (int i = 0; i < d.ng; ++i) { any |= d.par[i] != -1; d.par[i] = -1; } if (any && d.valid()) { if (fails(d, kw)) c = d; else need_tree = true; } }
+    { Case d = c; d.wg[0] = 0; d.wg[1] = 1; d.wg[2] = 2; if (d.valid() && fails(d, kw)) c = d; }
+    if (c.xe) { Case d = c; d.xe = 0; if (fails(d, kw)) c = d; }
+    // per-entity minimisation of what is still non-default (smaller reproducer; does not change the label)
+    for (int i = 0; i < 3; ++i) {
+        if (c.we[i]) { Case d = c; d.we[i] = 0; if (fails(d, kw)) c = d; }
+        if (c.status[i]) { Case d = c; d.status[i] = 0; if (fails(d, kw)) c = d; }
+        if (c.kind[i]) { Case d = c; d.kind[i] = 0; if (fails(d, kw)) c = d; }
+    }
+    for (int i = 0; i < c.ng; ++i) if (c.ge[i]) { Case d = c; d.ge[i] = 0; if (fails(d, kw)) c = d; }
+    while (c.seq.size() > 1) { Case d = c; d.seq.pop_back(); d.seq.back().second = 0; if (fails(d, kw)) c = d; else break; }
     if (need_units) return std::string("units:") + USYS[c.us];
     if (k.cls == K_CAL) return "calendar";
     if (need_efac) return "efac";
     if (need_status) { bool shut = false; for (int i = 0; i < 3; ++i) shut |= c.status[i] == 1; return shut ? "shut" : "sign"; }
     if (need_kind) return k.hist ? "history" : "sign";
     if (need_seq) return "accumulate";
+    if (need_tree) return "hierarchy";
     if (k.hist) return "history";
     if (k.cls == K_RATIO || k.ph == 'L' || k.ph == 'V') return "derived";
-    if (k.ent != 'W') return "hierarchy";
-    return k.total ? "accumulate" : "definition";
+    return "definition";          // wrong already in the flat default model: the entry itself (wrong phase/direction/function)
 }
 
 static std::map<std::string, int> g_diag_count;
 static long g_diag_runs = 0;
 
+static void do_case_report(const Case& c, const Outcome& o);
 static void do_case(const Case& c) {
     const std::string cs = c.str();
     R->current(cs);
@@ -445,9 +483,24 @@ static void do_case(const Case& c) {
     }
     R->observe(o.obs);
     R->count("values_compared", o.compared);
-    if (R->samples.size() < 4 && (R->evaluations % 97) == 1) R->sample_str(cs);
+    if (R->samples.size() < 2 && (vf::fnv(cs) % 1009) == 0) R->sample_str(cs);
     if (o.mm.empty()) return;
     R->count("mismatching_values", (long long)o.mm.size());
+    {   // everything already diagnosed often enough: count only
+        bool todo = false;
+        for (const auto& m : o.mm) if (g_diag_count[g_kws[m.kw].name] < 3 && g_diag_runs < 400) { todo = true; break; }
+        if (!todo) { R->count("cases_with_mismatch_not_diagnosed"); return; }
+    }
+    if (!g_full_deck) {                        // confirm on one complete deck, diagnose there
+        g_full_deck = true; Outcome f = run_case(c);
+        bool same = f.error.empty() && f.mm.size() == o.mm.size() && f.obs == o.obs;
+        if (!same) { R->violation("C09:harness:split-deck-differs", "mismatch seen with separately parsed SUMMARY/SCHEDULE input does not reproduce identically with the complete deck: " + cs, "{\"case\": " + vf::jstr(cs) + "}"); g_full_deck = false; return; }
+        do_case_report(c, f); g_full_deck = false; return;
+    }
+    do_case_report(c, o);
+}
+static void do_case_report(const Case& c, const Outcome& o) {
+    const std::string cs = c.str();
     std::set<int> seen;
     for (const auto& m : o.mm) {
         if (!seen.insert(m.kw).second) continue;
@@ -503,7 +556,7 @@ static bool setup_catalogue() {
             if (!has_reference(k)) { no_ref += k.name + " "; continue; }
             g_kws.push_back(k); checked += k.name + " ";
         }
-        g_built.reset();
+        g_built.reset(); g_sumdeck.clear();
     }
     if (R->shard == 0) {
         R->notes["vectors_checked"] = checked;
@@ -557,43 +610,132 @@ int main(int argc, char** argv) {
         "reference model in the harness: hierarchy walk, efficiency weights, sign split, accumulation, ratios, calendar and unit factors (stb = 0.158987294928 m3, Mscf = 28.316846592 m3, day = 86400 s, LAB scc/hr) written independently of Summary.cpp/Units.hpp",
         "efficiency convention as documented in Summary.cpp and pinned by tests/test_Summary.cpp(efficiency_factor): a well's own rate is unweighted, a group's rate carries the factors of wells and groups strictly below it, FIELD rates and every cumulative total carry the well's factor and the factor of every group up to FIELD",
         "dynamically SHUT wells are handed non-zero rates and observed rates so that 'contribute nothing' is not vacuous; STOP wells carry small cross-flow rates of mixed sign and contribute by sign",
-        "wells only in leaf groups (the library rejects groups with both wells and sub-groups); efficiency factors constant in time; rates are fingerprints, not physical solutions",
+        "wells only in leaf groups (the library rejects groups with both wells and sub-groups); group membership and well kind constant in time, efficiency factors change at most once (report step 2); rates are fingerprints, not physical solutions",
         "vectors outside W/G/F x {O,W,G,L,V} x {P,I} x {R,T,RH,TH}, the five ratios (+H) and the time vectors are not covered; connection/segment/region vectors not covered"};
     if (!setup_catalogue()) return run.finish();
 
     if (!run.replay_path.empty()) {
         Case c = Case::parse(run.replay_path);
-        use_summary_for(c.ng);
+        use_summary_for(c.ng); g_full_deck = true;
         if (!c.valid()) run.violation("C09:harness:bad-replay", "case is not in the enumerated space: " + run.replay_path);
         else do_case(c);
         return run.finish();
     }
 
-    // ---- regime A: deviation-bounded exploration over every tree shape --------
-    const int budget = run.thorough() ? 3 : 2;
-    const auto seqs = sequences(3);
-    {
+    auto set_tree = [](Case& c, const std::array<int, 4>& t) { for (int i = 0; i < c.ng; ++i) c.par[i] = t[i]; };
+    auto increasing = [](const std::array<int, 4>& t, int ng) { for (int i = 0; i < ng; ++i) if (t[i] >= i) return false; return true; };
+    auto exec = [&](const char* regime, const Case& c) {
+        if (!run.mine(vf::fnv(c.static_key()))) return;
+        run.count(std::string("cases_") + regime);
+        do_case(c);
+    };
+    auto stop = [&] { return run.timed_out() || run.counters["violations_total"] > 300; };
+    const auto tr3 = trees(3), tr4 = trees(4);
+    const auto seq2 = sequences(2), seq3 = sequences(3);
+
+    // ---- regime A: deviation-bounded exploration, 3 groups, every labelled forest x every leaf placement
+    //      default: all open producers, efficiency 1, METRIC, start 0, one 1 d step, no step-0 evaluation
+    auto regimeA = [&](int budget, bool only_increasing, bool skip_increasing, const char* name) {
         const int ng = 3; use_summary_for(ng);
-        auto tr = trees(ng);
-        uint64_t execs = vf::explore([&](vf::Chooser& ch) {
+        std::vector<std::array<int, 4>> tr;
+        for (auto& t : tr3) { bool inc = increasing(t, ng); if ((only_increasing && !inc) || (skip_increasing && inc)) continue; tr.push_back(t); }
+        if (tr.empty()) return;
+        vf::explore([&](vf::Chooser& ch) {
             Case c; c.ng = ng;
-            int t = ch.pick((int)tr.size()); for (int i = 0; i < ng; ++i) c.par[i] = tr[t][i];
+            set_tree(c, tr[ch.pick((int)tr.size())]);
             auto pl = placements(c);
             int p = ch.pick((int)pl.size()); for (int w = 0; w < 3; ++w) c.wg[w] = pl[p][w];
-            // static deviations first (deck rebuilt only when they change)
+            // deck-changing deviations first, the evaluation-only ones (step-0 evaluation, status) vary fastest
             c.us = ch.dev(4); c.start = ch.dev(3);
             for (int w = 0; w < 3; ++w) c.kind[w] = ch.dev(3);
             for (int w = 0; w < 3; ++w) c.we[w] = ch.dev(3);
             for (int g = 0; g < ng; ++g) c.ge[g] = ch.dev(3);
-            int s = ch.dev((int)seqs.size()); c.seq = seqs[s];
-            c.init = 1 - ch.dev(2);
+            c.xe = ch.dev(2);
+            c.seq = seq2[ch.dev((int)seq2.size())];
+            c.init = ch.dev(2);
             for (int w = 0; w < 3; ++w) c.status[w] = ch.dev(3);
-            if (!run.mine(vf::fnv(c.static_key()))) return;
-            do_case(c);
-        }, budget, [&] { return run.timed_out(); });
-        if (run.shard == 0) run.count("regimeA_trails_enumerated", (long long)execs);
+            exec(name, c);
+        }, budget, stop);
+    };
+    if (run.quick()) regimeA(2, false, false, "A_dev2_all_forests");
+    else regimeA(3, false, false, "A_dev3_all_forests");
+
+    // ---- regime B: every evaluation sequence (<= 3 evaluations, ministep patterns) x unit system x step-0 evaluation on three rich models
+    {
+        use_summary_for(3);
+        const char* models[3] = {
+            "T:-1.0.-1 P:1.1.2 WE:1.2.0 GE:1.2.1 K:0.1.0 S:0.0.2",      // G2 under G1; producer + water injector in G2, stopped producer in G3
+            "T:-1.-1.-1 P:0.1.2 WE:0.1.2 GE:2.0.1 K:0.0.2 S:0.1.0",     // star; one shut producer, a gas injector
+            "T:2.0.-1 P:1.1.1 WE:2.1.1 GE:1.1.2 K:2.1.0 S:0.0.0"};      // chain G2<G1<G3 with all wells in G2; declared child-before-parent
+        for (int m = 0; m < 3; ++m) for (int us = 0; us < 4; ++us) for (size_t q = 0; q < seq3.size(); ++q) for (int init = 0; init < 2; ++init) {
+            if (stop()) break;
+            Case c = Case::parse(models[m]); c.us = us; c.start = (int)((q + m) % 3); c.seq = seq3[q]; c.init = init; c.xe = (int)((q + m) % 2);
+            exec("B_sequences_x_units", c);
+        }
     }
+
+    if (run.thorough()) {
+        // ---- C1: 3 groups, forest x placement x complete 3-valued efficiency product (3^6) x two kind assignments
+        use_summary_for(3);
+        for (auto& t : tr3) {
+            Case c; c.ng = 3; set_tree(c, t);
+            for (auto& pl : placements(c)) for (int e = 0; e < 729 && !stop(); ++e) for (int kk = 0; kk < 2; ++kk) {
+                for (int w = 0; w < 3; ++w) c.wg[w] = pl[w];
+                int x = e; for (int w = 0; w < 3; ++w) { c.we[w] = x % 3; x /= 3; } for (int g = 0; g < 3; ++g) { c.ge[g] = x % 3; x /= 3; }
+                c.kind[0] = 0; c.kind[1] = kk ? 1 : 0; c.kind[2] = kk ? 2 : 0;
+                c.seq = {{1, 1}, {2, 0}};
+                exec("C1_efac_product_3groups", c);
+            }
+        }
+        // ---- C2: 3 groups, forest x placement x all 27 kind assignments x all 27 status assignments (efficiency factors all non-unit)
+        for (auto& t : tr3) {
+            Case c; c.ng = 3; set_tree(c, t);
+            for (auto& pl : placements(c)) for (int k = 0; k < 27 && !stop(); ++k) for (int sidx = 0; sidx < 27; ++sidx) {
+                for (int w = 0; w < 3; ++w) { c.wg[w] = pl[w]; c.we[w] = 1; c.ge[w] = 1; }
+                int x = k; for (int w = 0; w < 3; ++w) { c.kind[w] = x % 3; x /= 3; }
+                x = sidx; for (int w = 0; w < 3; ++w) { c.status[w] = x % 3; x /= 3; }
+                c.seq = {{0, 0}, {2, 0}};
+                exec("C2_kind_x_status_product", c);
+            }
+        }
+        // ---- C3: 4 groups (depth <= 4), every labelled forest x leaf placement x complete 2-valued efficiency product (2^7)
+        use_summary_for(4);
+        for (auto& t : tr4) {
+            Case c; c.ng = 4; set_tree(c, t);
+            for (auto& pl : placements(c)) for (int e = 0; e < 128 && !stop(); ++e) {
+                for (int w = 0; w < 3; ++w) c.wg[w] = pl[w];
+                for (int w = 0; w < 3; ++w) c.we[w] = (e >> w) & 1;
+                for (int g = 0; g < 4; ++g) c.ge[g] = (e >> (3 + g)) & 1;
+                c.kind[0] = 0; c.kind[1] = 0; c.kind[2] = 1;
+                c.seq = {{1, 1}, {2, 0}};
+                exec("C3_efac_product_4groups", c);
+            }
+        }
+        // ---- C4: 4 groups, increasing forests x leaf placement x 3-valued efficiency factors with <= 3 non-unit entities
+        {
+            std::vector<std::array<int, 4>> tr; for (auto& t : tr4) if (increasing(t, 4)) tr.push_back(t);
+            vf::explore([&](vf::Chooser& ch) {
+                Case c; c.ng = 4;
+                set_tree(c, tr[ch.pick((int)tr.size())]);
+                auto pl = placements(c);
+                int p = ch.pick((int)pl.size()); for (int w = 0; w < 3; ++w) c.wg[w] = pl[p][w];
+                for (int w = 0; w < 3; ++w) c.we[w] = ch.dev(3);
+                for (int g = 0; g < 4; ++g) c.ge[g] = ch.dev(3);
+                c.kind[0] = 0; c.kind[1] = 0; c.kind[2] = 2;
+                c.seq = {{0, 0}, {1, 0}};
+                exec("C4_efac_dev3_4groups", c);
+            }, 3, stop);
+        }
+    }
+    if (run.counters["violations_total"] > 300) { run.exhaustive = false; run.cap_note += "stopped after >300 mismatching vectors; "; }
     run.count("model_builds", (long long)g_builds);
-    run.rule = "to be filled";
+    run.rule = std::string("models: 3 wells (fingerprint rates per well x phase x evaluation, sign by kind) in leaf groups of a group forest under FIELD; dimensions: forest (all 16 labelled forests of 3 groups") +
+        (run.thorough() ? "; all 125 of 4 groups, depth <= 4" : "") + ") x leaf placement of the wells x WEFAC/GEFAC in {1, ~0.5, ~0.25} distinct per entity x kind {producer WCONHIST, water injector, gas injector WCONINJH} x dynamic status {OPEN, SHUT, STOP} x {METRIC, FIELD, LAB, PVT-M} x 3 start dates x evaluation sequences over {1 d, 10 d, 0.5 d} with ministep flags x {with, without} step-0 evaluation x {constant, changed at report step 2} efficiency factors. " +
+        (run.quick()
+             ? "A: every combination with <= 2 deviations from the default (open producers, efficiency 1, METRIC, one 1 d step) over all 105 forest x placement pairs, sequences of <= 2 evaluations; "
+             : "A: every combination with <= 3 deviations from the same default over all 105 forest x placement pairs, sequences of <= 2 evaluations; ") +
+        "B: all 129 sequences of <= 3 evaluations x 4 unit systems x step-0 evaluation on 3 fixed rich models" +
+        (run.thorough() ? "; C1: 105 pairs x complete 3^6 efficiency product x 2 kind assignments; C2: 105 pairs x 27 kind x 27 status assignments; C3: 1420 pairs (4 groups) x complete 2^7 efficiency product; C4: 450 pairs (4 groups, increasing forests) x 3-valued efficiency factors on <= 3 entities" : "") +
+        ". Oracle: after every Summary::eval each of the checked vectors (see notes.vectors_checked) at every well/group/FIELD node equals the harness reference (rel 1e-10). distinct = distinct vectors of all observed values";
     return run.finish();
 }
